@@ -138,6 +138,10 @@ def run(prop, tier, seed, replay):
         add("unequal-lengths-longer-patch", dict(common, columns=base_cols(True), patch_name=True, source="hdf5",
                                                   extend={"patch": 3}), "raise")
         add("empty-centre", dict(common, columns=base_cols(), centres=centres + [[3.0, 1.0]]), "raise")
+        # very many centres without an object: whatever the library has to say about them must still reach the caller
+        # (error objects travel through a pipe of limited capacity in parallel mode)
+        many = [[3.0 + 0.0001 * k, 1.0] for k in range(20000)]
+        add("many-empty-centres", dict(common, columns=base_cols(), centres=centres + many), "raise")
         add("no-patch-method", dict(common, columns=base_cols()), "raise")
         add("exists-no-overwrite", dict(common, columns=base_cols(), centres=centres, overwrite=False), "raise", pre="catalog")
         add("exists-overwrite-catalog", dict(common, columns=base_cols(), centres=centres, overwrite=True), "ok", pre="catalog")
